@@ -119,9 +119,9 @@ class IntRange:
                 + ([IntRange(self.hi+1, other.hi)]
                    if self.hi < other.hi else [])
             )
-        elif other.lo <= self.hi:
+        elif self.lo < other.lo:
             return [IntRange(self.lo, other.lo-1)], [IntRange(self.hi+1, other.hi)]
-        return [IntRange(self.lo, other.lo-1)], [IntRange(self.hi+1, other.hi)]
+        return [IntRange(other.hi+1, self.hi)], [IntRange(other.lo, self.lo-1)]
 
     def __str__(self):
         return f"[{self.lo},{self.hi}]"
